@@ -189,3 +189,118 @@ Proof.
   intros [_ _ H3 _] G Hm. rewrite Forall_forall in H3. apply H3. unfold all_ids. apply in_flat_map. exists t.
   split; [now apply nth_error_In in G|assumption].
 Qed.
+
+(* ------------------------------------------------------------------ *)
+(* contexts for identities and keys *)
+Lemma ids_context p f c : get_ch p f = Some c ->
+  exists A B, ids f = A ++ ids c ++ B /\ forall g, ids (upd_ch p g f) = A ++ ids (g c) ++ B.
+Proof.
+  intros G. destruct (upd_ch_context p f 0 c G) as (A & B & E1 & E2).
+  exists (map r_id A), (map r_id B). split.
+  - rewrite <- (rows_ids f 0), E1, !map_app, rows_ids. reflexivity.
+  - intros g. rewrite <- (rows_ids _ 0), E2, !map_app, rows_ids. reflexivity.
+Qed.
+
+Lemma keys_context p f c : get_ch p f = Some c ->
+  exists A B, keys f = A ++ keys c ++ B /\ forall g, keys (upd_ch p g f) = A ++ keys (g c) ++ B.
+Proof.
+  intros G. destruct (upd_ch_context p f 0 c G) as (A & B & E1 & E2).
+  exists (map r_key A), (map r_key B). split.
+  - rewrite <- (rows_keys' f 0), E1, !map_app, rows_keys'. reflexivity.
+  - intros g. rewrite <- (rows_keys' _ 0), E2, !map_app, rows_keys'. reflexivity.
+Qed.
+
+Lemma keys_app a b : keys (a ++ b) = keys a ++ keys b.
+Proof. unfold keys. now rewrite flat_map_app, map_app. Qed.
+
+Lemma keys_cons t f : keys (t :: f) = (rid t, rdid t) :: keys (rch t) ++ keys f.
+Proof. unfold keys. cbn [flat_map]. rewrite pre_unfold, map_app. reflexivity. Qed.
+
+Lemma ids_sub_child p f c : get_ch p f = Some c -> incl (ids c) (ids f).
+Proof. intros G. destruct (ids_context p f c G) as (A & B & E & _). rewrite E. intros x Hx. apply in_or_app. right. apply in_or_app. now left. Qed.
+
+Lemma NoDup_child_list p f c : NoDup (ids f) -> get_ch p f = Some c -> NoDup (ids c).
+Proof.
+  intros ND G. destruct (ids_context p f c G) as (A & B & E & _). rewrite E in ND.
+  apply NoDup_app_r in ND. now apply NoDup_app_l in ND.
+Qed.
+
+Lemma SU_remove_list a X b : SU (a ++ X ++ b) -> SU (a ++ b).
+Proof.
+  induction X as [|x X IH]; intros H; [exact H|]. apply IH. cbn [app] in H. now apply SU_remove in H.
+Qed.
+
+(* SUB-STEP: unlink the branches [X] from the child list at a path and
+   unregister all their nodes *)
+Lemma WF_cut t pq a X b :
+  WF t -> get_ch pq (forest_of t) = Some (a ++ X ++ b) ->
+  WF (set_all t (upd_ch pq (fun _ => a ++ b) (forest_of t))
+        (fold_left (fun r s => reg_del (rid s) r) (pre_f X) (reg t))
+        (fold_left (fun ix s => idx_del (rdid s) (rid s) ix) (pre_f X) (idx t)))
+  /\ Permutation (ids (forest_of t)) (ids X ++ ids (upd_ch pq (fun _ => a ++ b) (forest_of t))).
+Proof.
+  intros H G. set (f := forest_of t) in *. set (f' := upd_ch pq (fun _ => a ++ b) f).
+  destruct (ids_context pq f _ G) as (A & B & E1 & E2). specialize (E2 (fun _ => a ++ b)). fold f' in E2.
+  destruct (keys_context pq f _ G) as (A' & B' & K1 & K2). specialize (K2 (fun _ => a ++ b)). fold f' in K2.
+  cbn beta in E2, K2.
+  assert (Pi : Permutation (ids f) (ids X ++ ids f')).
+  { rewrite E1, E2, !ids_app. repeat rewrite <- app_assoc. rewrite !(app_assoc A (ids a)). apply Permutation_app_swap_app. }
+  assert (Pk : Permutation (keys f) (keys X ++ keys f')).
+  { rewrite K1, K2, !keys_app. repeat rewrite <- app_assoc. rewrite !(app_assoc A' (keys a)). apply Permutation_app_swap_app. }
+  split; [|exact Pi].
+  destruct H as [H1 H2 H3 H4 H5 H6 H7]. fold f in H1, H2, H3, H6, H7.
+  assert (ND : NoDup (ids X ++ ids f')) by (apply (Permutation_NoDup Pi H1)).
+  eapply WF_intro; [reflexivity| | | | |].
+  - now apply NoDup_app_r in ND.
+  - intros Y. apply H2. apply (Permutation_in _ (Permutation_sym Pi)). apply in_or_app. now right.
+  - apply unregister_reg_ok.
+    + apply (Permutation_NoDup (Permutation_sym H3) H1).
+    + now rewrite H3.
+  - apply unregister_idx_ok. apply (IdxOK_perm _ (keys f)); [now repeat split|exact Pk].
+  - unfold f'. apply (SU_upd pq f (a ++ X ++ b)); [assumption..|].
+    apply (SU_remove_list a X b). now apply (SU_get pq f).
+Qed.
+
+(* SUB-STEP: replace a node by its children (remove(keep_children=True)) *)
+Lemma WF_splice t q0 a s b :
+  WF t -> get_ch q0 (forest_of t) = Some (a ++ s :: b) ->
+  (forall c o, In c (rch s) -> In o (a ++ b) -> rdid o <> rdid c) ->
+  WF (set_all t (upd_ch q0 (fun _ => a ++ rch s ++ b) (forest_of t))
+        (reg_del (rid s) (reg t)) (idx_del (rdid s) (rid s) (idx t)))
+  /\ Permutation (ids (forest_of t)) (rid s :: ids (upd_ch q0 (fun _ => a ++ rch s ++ b) (forest_of t))).
+Proof.
+  intros H G Hc. set (f := forest_of t) in *. set (f' := upd_ch q0 (fun _ => a ++ rch s ++ b) f).
+  destruct (ids_context q0 f _ G) as (A & B & E1 & E2). specialize (E2 (fun _ => a ++ rch s ++ b)). fold f' in E2.
+  destruct (keys_context q0 f _ G) as (A' & B' & K1 & K2). specialize (K2 (fun _ => a ++ rch s ++ b)). fold f' in K2.
+  cbn beta in E2, K2.
+  assert (Pi : Permutation (ids f) (rid s :: ids f')).
+  { rewrite E1, E2, !ids_app, ids_cons. la. rewrite !(app_assoc A (ids a)).
+    symmetry. apply Permutation_middle. }
+  assert (Pk : Permutation (keys f) ((rid s, rdid s) :: keys f')).
+  { rewrite K1, K2, !keys_app, keys_cons. la. rewrite !(app_assoc A' (keys a)).
+    symmetry. apply Permutation_middle. }
+  split; [|exact Pi].
+  destruct H as [H1 H2 H3 H4 H5 H6 H7]. fold f in H1, H2, H3, H6, H7.
+  assert (ND : NoDup (rid s :: ids f')) by (apply (Permutation_NoDup Pi H1)).
+  eapply WF_intro; [reflexivity| | | | |].
+  - now inversion ND.
+  - intros Y. apply H2. apply (Permutation_in _ (Permutation_sym Pi)). now right.
+  - apply reg_del_perm.
+    + apply (Permutation_NoDup (Permutation_sym H3) H1).
+    + now rewrite H3.
+  - apply idx_del_ok. apply (IdxOK_perm _ (keys f)); [now repeat split|exact Pk].
+  - unfold f'. apply (SU_upd q0 f (a ++ s :: b)); [assumption..|].
+    assert (Sl := SU_get q0 f _ H7 G).
+    assert (Ss : SU (rch s)) by (apply (SU_child _ s Sl); apply in_or_app; right; now left).
+    assert (Sab := SU_remove a s b Sl).
+    constructor.
+    + rewrite !map_app. apply SU_top in Sab. rewrite map_app in Sab.
+      apply (Permutation_NoDup (l := map rdid (rch s) ++ map rdid a ++ map rdid b)); [apply Permutation_app_swap_app|].
+      apply NoDup_app_intro; [now apply SU_top|assumption|].
+      intros x Hx Hy. apply in_map_iff in Hx. destruct Hx as (c & <- & Hcin).
+      rewrite <- map_app in Hy. apply in_map_iff in Hy. destruct Hy as (o & E & Ho). now apply (Hc c o Hcin Ho).
+    + intros x Hx. apply in_app_or in Hx. destruct Hx as [Hx|Hx]; [|apply in_app_or in Hx; destruct Hx as [Hx|Hx]].
+      * apply (SU_child _ x Sab). apply in_or_app. now left.
+      * now apply (SU_child _ x Ss).
+      * apply (SU_child _ x Sab). apply in_or_app. now right.
+Qed.
